@@ -35,7 +35,10 @@ TRUSTED = base.TRUSTED + [
     "derives it from the Evaluation rows actually present in the sqlite file",
 ]
 ASSUMPTIONS = base.ASSUMPTIONS + ["feasible limit configurations only (no job demands more than its limit)", "backend histories: empty; after a complete or failed earlier execution of the same program; after editing one task "
-                                  "(new version => new task hash)"]
+                                  "(new version => new task hash)", "programs in which one call occurs under two different contexts are compared in "
+                                  "single-execution histories only: in a later execution the same-execution lookup may serve one from the other through the "
+                                  "context tags the shared call node got in the earlier execution (same node, hence the same value), which the model's "
+                                  "one-flag-per-call abstraction of the backend state does not carry"]
 RULE = ("generated job-tree programs; backend state = empty | after a first (possibly failing) real run | after that plus an edit of one task; on a "
         "copy of the sqlite file a DRY run (controlled scheduler, interposed executor counting submissions and task-function calls) is compared "
         "event by event with the model, then a REAL run on another copy is the oracle: dry run submits nothing; if it returns v the real run "
@@ -70,7 +73,21 @@ def eval_keys(sched, ctl, p):
     return keys
 
 
+def multi_ctx_key(p):
+    """some call (cache key) occurs under two different contexts (one may be the empty one).  In a LATER execution the same-execution lookup can then
+    serve one of them from the other: both produced the same call node in the earlier execution, so the node carries both context
+    tags (same task, arguments, result and children - the shared value is the right one).  The model's abstraction of the backend
+    state (one flag per call) has no context tags of earlier executions, so such programs are compared in single-execution
+    histories only."""
+    seen = {}
+    for sp in p.specs:
+        seen.setdefault(sp["key"], set()).add(sp["ctx"])        # ctx 0 = empty context: its node is tagged by the others too
+    return any(len(v) > 1 for v in seen.values())
+
+
 def scenario(ctx, p, rng, tmp, items, kind):
+    if kind != "empty" and multi_ctx_key(p):
+        kind = "empty"
     db = os.path.join(tmp, "base%d.db" % ctx.evaluations)
     uri = lambda path: "sqlite:///" + path  # noqa: E731
     history = "empty"
